@@ -83,6 +83,21 @@ def run_component(ctx, res, seed, lines, post):
                                          'input': {**info, 'lead_shape': list(lead), 'as_list': as_list, 'output': k},
                                          'observed': {'shape': list(got.shape)}, 'expected': {'shape': list(lead)}})
         res.hit('array-input-lead-' + 'x'.join(map(str, lead)))
+    # 0b. LARGE batches (sizes that are not round numbers): every sample of a big batch equals the same sample in small batches
+    for which in ('predict', 'gradient'):
+        fn = eval_fn(comp, which)
+        for nbig in (1001, 2003):
+            big = {n: np.array([rng.random() for _ in range(nbig)]) for n in names}
+            out_big = fn(dict(big))
+            tail = list(range(nbig - 7, nbig)) + rng.sample(range(nbig - 7), 7)
+            out_small = fn({n: big[n][tail] for n in names})
+            for k in out_big:
+                if not close(np.asarray(out_big[k])[tail], np.asarray(out_small[k])):
+                    res.failures.append({'kind': f'{which}: sample-in-large-batch-differs-from-sample-in-small-batch',
+                                         'input': {**info, 'batch': nbig, 'output': k},
+                                         'observed': np.asarray(out_big[k])[tail][:7].tolist(),
+                                         'expected': np.asarray(out_small[k])[:7].tolist()})
+        res.hit(which + '-large-batch')
     for which in ('predict', 'model', 'gradient', 'hessian'):
         fn = eval_fn(comp, which)
         full = fn(dict(base))
